@@ -11,6 +11,7 @@ mod specgen;
 mod t_exit;
 mod t_fsm;
 mod t_isolate;
+mod t_statsrt;
 mod t_stream;
 mod t_views;
 mod trials;
